@@ -30,6 +30,7 @@ import (
 	"github.com/markusressel/fan2go/internal/fans"
 	"github.com/markusressel/fan2go/internal/persistence"
 	"github.com/markusressel/fan2go/internal/util"
+	bolt "go.etcd.io/bbolt"
 )
 
 // ---------------------------------------------------------------- inputs
@@ -59,6 +60,11 @@ type startupCmd struct {
 type startupIn struct {
 	Par   bool `json:"par"`
 	Cobra bool `json:"cobra"` // `fan reset` of a file fan goes through the real cobra command with a generated config file
+	// Concurrent: every command is a start of a distinct fan and all of them are launched together on the one
+	// database file (the way the daemon starts its controllers); HoldMs: a second user of the database file
+	// (another fan2go process such as `fan2go fan curve`) has it open for these many ms at a time during start-up
+	Concurrent bool  `json:"concurrent"`
+	HoldMs     []int `json:"hold_ms"`
 	Fans []startupFanSpec `json:"fans"`
 	Db   []startupDbEntry `json:"db"`
 	Cmds []startupCmd     `json:"cmds"`
@@ -570,9 +576,9 @@ func (e *startupEnv) classify(fanId int, from int) ([]string, int) {
 				acts = append(acts, "LoadedData")
 			case ev.Op == "LM" && ev.Val == 1:
 				acts = append(acts, "LoadedMap")
-			case ev.Op == "SD":
+			case ev.Op == "SD" && ev.Val == 1:
 				acts = append(acts, "SavedData")
-			case ev.Op == "SM":
+			case ev.Op == "SM" && ev.Val == 1:
 				acts = append(acts, "SavedMap")
 			}
 		case "R":
@@ -631,6 +637,9 @@ func startupRun(ctx *Ctx, in startupIn) startupObs {
 		if d, ok := env.devs[ent.Id]; ok {
 			env.preload(d, ent)
 		}
+	}
+	if in.Concurrent {
+		return startupRunConcurrent(env, in)
 	}
 	running := map[int]*startupProc{}
 	stop := func(id int) {
@@ -733,6 +742,112 @@ func startupCobraReset(env *startupEnv, d *startupDev) {
 	if err := fancmd.Command.Execute(); err != nil {
 		panic("cobra fan reset: " + err.Error())
 	}
+}
+
+// startupRunConcurrent launches the controllers of all commands (starts of distinct fans) together on the one
+// bbolt file, optionally while another user of the file keeps opening it. The observation has the shape of
+// the sequential one: one step per command, in command order.
+func startupRunConcurrent(env *startupEnv, in startupIn) startupObs {
+	env.mu.Lock()
+	from := len(env.events)
+	env.mu.Unlock()
+	holderDone := make(chan struct{})
+	if len(in.HoldMs) > 0 {
+		first := make(chan struct{})
+		go func() {
+			defer close(holderDone)
+			for i, ms := range in.HoldMs {
+				db, err := bolt.Open(env.dbPath, 0600, &bolt.Options{Timeout: time.Minute})
+				if i == 0 {
+					close(first)
+				}
+				if err == nil {
+					time.Sleep(time.Duration(ms) * time.Millisecond)
+					_ = db.Close()
+				}
+				// waiting openers poll the file lock every 50 ms: leave them a window
+				time.Sleep(80 * time.Millisecond)
+			}
+		}()
+		<-first
+	} else {
+		close(holderDone)
+	}
+	procs := make([]*startupProc, len(in.Cmds))
+	for i, c := range in.Cmds {
+		if d, ok := env.devs[c.Id]; ok && c.Op == "start" {
+			procs[i] = env.launch(d, 2*time.Millisecond)
+		}
+	}
+	var obs startupObs
+	regs := make([]bool, len(in.Cmds))
+	errs := make([]error, len(in.Cmds))
+	for i, p := range procs {
+		if p != nil {
+			regs[i], errs[i] = p.waitFirstCycle(180 * time.Second)
+		}
+	}
+	for i, c := range in.Cmds {
+		step := startupStepObs{Acts: []string{}}
+		p := procs[i]
+		if p == nil {
+			obs.Steps = append(obs.Steps, step)
+			continue
+		}
+		step.Acts, step.Writes = env.classify(c.Id, from)
+		if !regs[i] {
+			<-p.done
+			if errs[i] != nil {
+				step.Acts = append(step.Acts, "Err")
+			}
+		}
+		if pm := p.ctl.VerifPwmMap(); pm != nil {
+			step.Final = startupMapToPairs(pm)
+			step.HasFin = true
+		}
+		obs.Steps = append(obs.Steps, step)
+	}
+	for i, p := range procs {
+		if p != nil && regs[i] {
+			p.stop()
+		}
+	}
+	<-holderDone
+	for i, c := range in.Cmds {
+		if d, ok := env.devs[c.Id]; ok && procs[i] != nil {
+			obs.Steps[i].HasData, obs.Steps[i].HasMap = env.dbFlags(d)
+		}
+	}
+	return obs
+}
+
+// startupGenConcurrent: K already analysed fans (RPM data and PWM map stored for each, hwmon and file mixed)
+// whose controllers start together; with or without a second user of the database file
+func startupGenConcurrent(rng *Rng, k int, hold bool) (startupIn, []string) {
+	in := startupIn{Par: rng.Bool(), Concurrent: true}
+	tags := []string{"concurrent", "concurrent-k=" + itoa(k)}
+	for id := 1; id <= k; id++ {
+		f := startupFanSpec{Id: id, Kind: "hwmon", PwmReadable: true, Rpm: true}
+		if rng.Chance(1, 3) {
+			f.Kind = "file"
+		}
+		f.Dev, _ = startupGenDev(rng)
+		in.Fans = append(in.Fans, f)
+		ent := startupDbEntry{Id: id, Data: true, HasMap: true}
+		for w := 0; w <= 255; w++ {
+			ent.Map = append(ent.Map, [2]int{w, startupDevApply(f.Dev, w)})
+		}
+		in.Db = append(in.Db, ent)
+		in.Cmds = append(in.Cmds, startupCmd{"start", id})
+	}
+	if hold {
+		n := rng.Range(2, 4)
+		for i := 0; i < n; i++ {
+			in.HoldMs = append(in.HoldMs, rng.Range(50, 300))
+		}
+		tags = append(tags, "db-held-by-second-user")
+	}
+	return in, tags
 }
 
 // ---------------------------------------------------------------- Coq rendering
@@ -1082,6 +1197,16 @@ func init() {
 		// one cmd fan that can read its PWM back (sweeps through the scripts)
 		emit(startupIn{Par: false, Fans: []startupFanSpec{{Id: 1, Kind: "cmd", PwmReadable: true, Rpm: true, Dev: [][2]int{}}},
 			Cmds: []startupCmd{{"start", 1}, {"stop", 1}, {"start", 1}}}, "grid", "kind=cmd", "cmd-sweep")
+		// (a') already analysed fans whose controllers start together on ONE database file (as the daemon starts them),
+		// half of them while a second user of the file has it open: stored data must still be found and reused
+		nc := ctx.Param("nc", 10)
+		if !ctx.Quick() {
+			nc = ctx.Param("nc", 80)
+		}
+		for i := 0; i < nc; i++ {
+			in, tags := startupGenConcurrent(rng, 2+i%5, i%2 == 1)
+			emit(in, tags...)
+		}
 		// (b) random fleets and command sequences
 		n := ctx.Param("n", 120)
 		budget := 1
